@@ -175,8 +175,16 @@ class Runner:
             return False
         return True
 
+    def resync(self):
+        """replace the spec state by the implementation's (after a truncating operation that was
+        accepted within its documented tolerance)"""
+        sids, dims, rho = joint(self.w)
+        tr = np.trace(rho)
+        self.lean.call(op="set", ids=sids, dims=dims, rho=carr(rho / tr))
+        self.vtol = 1e-5
+
     def check_invariants(self, i):
-        for m in check_valid_states(self.w, 1e-7 if self.tol == TOL else 1e-4):
+        for m in check_valid_states(self.w, getattr(self, "vtol", 1e-7)):
             self.findings.append(Finding("C07", m, i))
         for m in check_bookkeeping(self.w):
             self.findings.append(Finding("C13", m, i))
@@ -291,8 +299,22 @@ class Runner:
             self.findings.append(Finding("C17", f"{gate} on {st['targets']} yields the zero vector but was not rejected", i))
             return
         if inexact:
-            self.tol = TOL_TRUNC
-        self.compare_states(prop if not inexact else "C10", i)
+            # displacement / squeezing: equal to the ideal result only up to the documented
+            # truncation threshold; judged here, then the spec is re-synchronised so that the
+            # following steps are compared exactly again
+            n0 = len(self.findings)
+            self.compare_states("C10", i, TOL_TRUNC)
+            if len(self.findings) > n0:
+                err = getattr(self, "last_err", 1.0)
+                if err > 0.15:
+                    self.findings[-1].prop = prop
+                elif gate == "Squeeze":
+                    del self.findings[n0:]
+                    self.known("C10", f"Squeeze: the automatically chosen cutoff loses more than the documented threshold (error {err:.1e})", i)
+            if len(self.findings) == n0:
+                self.resync()
+        else:
+            self.compare_states(prop, i)
         self.spec_trim()
         self.check_invariants(i)
         touched = self.touched_blocks(before, st["targets"])
@@ -348,7 +370,7 @@ class Runner:
     def after_reject(self, i, st, before, prop):
         """after a rejected call the physical state and the object graph must be as before"""
         self.compare_states(prop, i, what="joint state after a rejected call")
-        for m in check_valid_states(self.w, 1e-7 if self.tol == TOL else 1e-4):
+        for m in check_valid_states(self.w, getattr(self, "vtol", 1e-7)):
             self.findings.append(Finding(prop, "after a rejected call: " + m, i))
         for m in check_bookkeeping(self.w):
             self.findings.append(Finding(prop, "after a rejected call: " + m, i))
